@@ -85,7 +85,7 @@ def s_array(ch, T):
     ops = dict(x=T.arr(shape, kind=kind))
     if "y" in form:
         ops["y"] = T.arr(shape, kind=kind)
-    return Case("array", form, ops, dict(rank=len(shape), kind=kind, form=form[:24], ndmin="ndmin" in form), family="W")
+    return Case("array", form, ops, dict(rank=len(shape), kind=kind, form=form[:24], ndmin="ndmin" in form, list_input="[" in form), family="W")
 
 
 @spec("select", "W")
